@@ -5,10 +5,23 @@
   to be the inverse of every invertible `A` — relative to the Gauss facts `RowEquiv`/`isRREF` (discharged in
   M4riProofs/GaussOK.lean when present).
   In Mathlib's terms (`ML`): `inverseSpec A` and `invertNaive A I` are Mathlib's `(mat A)⁻¹` whenever `det` is a unit.
+  END TO END (M4riProofs/TrsmBase.lean, M4riProofs/Glue2.lean, collected in M4riProofs/Top.lean, PB27) — both inversion
+  routines are mirrored step by step and proved, nothing is per-input certification:
+    `Top.trtri_upper` / `Top.trtri_full` (= `TB.trtriFull_eq`)   the complete `mzd_trtri_upper` (Four-Russians base case
+        `mzd_trtri_upper_russian` with its automatic `k`, recursion through `_mzd_trsm_upper_left` / `_mzd_trsm_upper_right`)
+        replaces a well-formed square upper triangular matrix with ones on the diagonal by `triInv U`, for every fuel, every
+        prior content of the index arrays and the build parameters `Top.paramsOf L1 L2 L3 sse2` of every cache triple with
+        `15 ≤ L3` (every admissible one, `Top.Admissible.l3`); `Top.trtri_upper_spec`: two-sided inverse, unit upper
+        triangular, Mathlib's `(mat U)⁻¹`.  The diagonal hypothesis is needed (`TB.trtriRussian_reads_diagonal`).
+    `Top.inv_m4ri` (= `G2.invM4ri_spec`)   `mzd_inv_m4ri` (`G2.invM4ri`: `mzd_echelonize_m4ri` on `[A | 0 | I | 0]`, every
+        `k ≥ 1`) returns the inverse of every invertible well-formed square `A` (= `inverseSpec A`, two-sided);
+        `Top.inv_m4ri_mathlib`: Mathlib's `(mat A)⁻¹`; `Top.inv_m4ri_any`: on ANY square `A` an invertible `T` with
+        `T·A = rref A` (the C routine has no failure indication).
 -/
 import M4riProofs.Trsm
 import M4riProofs.GaussOK
 import M4riProofs.MathlibSpec
+import M4riProofs.Top
 namespace M4ri.Props.C05
 open M4ri M4ri.BMat
 
@@ -54,5 +67,24 @@ theorem tri_inverse_value {U : BMat} (hU : U.WF) (hsq : U.ncols = U.nrows) (hut 
 #check @M4ri.BMat.ML.isUnit_det_iff
 #check @M4ri.BMat.ML.isUnit_det_iff_ne_zero
 #check @M4ri.BMat.ML.mat_triInv_isUpperTriangular
+
+
+-- the complete C routines (M4riProofs/Top.lean re-exports of M4riProofs/TrsmBase.lean and M4riProofs/Glue2.lean)
+#check @M4ri.BMat.Top.trtri_upper
+#check @M4ri.BMat.Top.trtri_full
+#check @M4ri.BMat.Top.trtri_upper_spec
+#check @M4ri.BMat.Top.trtri_upper_adm
+#check @M4ri.BMat.Top.inv_m4ri
+#check @M4ri.BMat.Top.inv_m4ri_mathlib
+#check @M4ri.BMat.Top.inv_m4ri_any
+#check @M4ri.BMat.Top.Admissible.l3
+#check @M4ri.BMat.TB.trtriFull_eq
+#check @M4ri.BMat.TB.trtriFull_spec
+#check @M4ri.BMat.TB.trtriUpperC_eq
+#check @M4ri.BMat.TB.trtriRussian_eq
+#check @M4ri.BMat.TB.trtriRussian_reads_diagonal
+#check @M4ri.BMat.G2.invM4ri_spec
+#check @M4ri.BMat.G2.invM4ri_eq_rref
+#check @M4ri.BMat.G2.invM4ri_mul_eq_rref
 
 end M4ri.Props.C05
